@@ -36,10 +36,36 @@ def _getformat(val):
     string
         the format string.
     """
-    if int(val) == val:
+    if np.isfinite(val) and int(val) == val:
         return "%.1f"
     else:
         return "%.16g"
+
+
+def _format_value(val):
+    """
+    Get the text that is written into the file for a value.
+
+    Floats are written with 16 significant digits, infinities and NaN as the tokens that
+    FileParser reads back as floats ('Inf', '-Inf', 'NaN'); anything else is written as str(val).
+
+    Parameters
+    ----------
+    val : float, int, bool or str
+        The value to be written.
+
+    Returns
+    -------
+    str
+        The text for the value.
+    """
+    if isinstance(val, float):
+        if np.isnan(val):
+            return "NaN"
+        if np.isinf(val):
+            return "Inf" if val > 0 else "-Inf"
+        return _getformat(val) % val
+    return str(val)
 
 
 class _SubHelper(object):
@@ -127,10 +153,7 @@ class _SubHelper(object):
         self._current_location += 1
 
         if self._current_location == self._replace_location:
-            if isinstance(self._newtext, float):
-                return _getformat(self._newtext) % self._newtext
-            else:
-                return str(self._newtext)
+            return _format_value(self._newtext)
         else:
             return text.group()
 
@@ -156,11 +179,7 @@ class _SubHelper(object):
         if self._current_location >= self._start_location and \
            self._current_location <= self._end_location and \
            self._counter < end:
-            if isinstance(self._newtext[self._counter], float):
-                val = self._newtext[self._counter]
-                newval = _getformat(val) % val
-            else:
-                newval = str(self._newtext[self._counter])
+            newval = _format_value(self._newtext[self._counter])
             self._counter += 1
             return newval
         else:
@@ -268,7 +287,7 @@ class _ToInf(TokenConverter):
         float
             the float value for infinity.
         """
-        return float('inf')
+        return float('-inf') if tokenlist[0].startswith('-') else float('inf')
 
 
 class InputFileGenerator(object):
@@ -504,7 +523,7 @@ class InputFileGenerator(object):
         # This is resolved by adding more fields at the end
         if sub._counter < len(value):
             for val in value[sub._counter:]:
-                newline = newline.rstrip() + sep + str(val)
+                newline = newline.rstrip() + sep + _format_value(val)
             self._data[j] = newline
 
         # Sometimes an array is too small for the template
